@@ -46,16 +46,25 @@ def run(chk):
         c.cap = None
 
     stats = {"variant_fixed": 0, "variant_both": 0, "variant_old": 0, "emu_runs": 0, "emu_ok": 0, "coq_decider_runs": 0,
-             "auto_flush_pairs": 0}
+             "auto_flush_pairs": 0, "emu_on_invalid": 0}
     corr_broken = []
     decider_disagree = []
 
     def prejudge(c, res):
         res["emu"] = None
-        if res["impl_status"] == "ok" and emu_ready(c) and res["dir"]:
-            rc, out, err = trace.run_tool(build, "ovniemu", ["-l"], os.path.join(res["dir"], "ovni"), timeout=120)
-            res["emu"] = (rc, err[-1500:])
         res["meta"] = rb.metadata_decide(rb.json_path(res["dir"])) if (res["impl_status"] == "ok" and res["dir"]) else None
+        res["bad"] = rb.valid_decide(res["obs"]) if res["impl_status"] == "ok" else None
+        # the emulator is only asked about streams the validator accepts (on garbage it may not
+        # even terminate, which is C19's subject); an invalid stream is a violation by itself
+        if res["impl_status"] == "ok" and emu_ready(c) and res["dir"]:
+            if res["bad"] is not None:
+                with rb.JUDGE_LOCK:
+                    stats["emu_on_invalid"] += 1
+                    go = stats["emu_on_invalid"] <= 4        # a few, for the replay file
+                if not go:
+                    return
+            rc, out, err = trace.run_tool(build, "ovniemu", ["-l"], os.path.join(res["dir"], "ovni"), timeout=120 if res["bad"] is None else 10)
+            res["emu"] = (rc, err[-1500:])
 
     def judge(c, res):
         capv = c.cap if c.cap is not None else ctx.defcap
@@ -71,7 +80,7 @@ def run(chk):
         if ist != "ok":
             chk.violation("conformant-program-%s:%s" % (ist, c.fingerprint()), "conformant program ended with %s" % ist, replay)
             return
-        bad = rb.valid_decide(res["obs"])
+        bad = res["bad"]
         if res["obs"] is not None:
             stats["auto_flush_pairs"] += res["obs"].count(b"\x00OF]")
         if res["coq_valid"] is not None:
@@ -111,7 +120,7 @@ def run(chk):
                                 "model": res["m1"]["status"], "model_len": res["m1"].get("disk_len")})
 
     rb.run_all(ctx, small, judge, chunk=32, prejudge=prejudge, coq_valid=True)
-    rb.run_all(ctx, big, judge, chunk=2, workers=12, prejudge=prejudge, coq_valid=quick is False or True)
+    rb.run_all(ctx, big, judge, chunk=2, workers=12, prejudge=prejudge, coq_valid=True)
 
     if small:
         s = small[len(small) // 3]
